@@ -257,3 +257,72 @@ def r9_componentwise_widening(ctx):
 
 
 RULES += [r9_componentwise_widening]
+
+
+def r10_dis_interval_widening(ctx):
+    ctx.rule("C05.r10", "dis_interval widening: an interval of the RIGHT argument enters the result only through the interval widening "
+             "(widen_op.apply / approx of the whole list), never verbatim - a disjunct of the new iterate copied as it is grows by an "
+             "arbitrary amount at every step, so chains that grow in the middle never become stationary", floor=2)
+    n = 0
+    for f, lst in C08.DI_FILES:
+        if not ctx.db.has_file(f):
+            continue
+        for fn in ctx.db.fns(f, name="widening"):
+            if not (fn.get("cpk") or "").endswith("::dis_interval") or not fn.get("params"):
+                continue
+            oid = fn["params"][0]["id"]
+            body = fn["body"]
+            d = local_decls(body)
+            # result lists: locals of the list type that receive push_back / insert
+            sinks = []
+            for c, ps in walk_with_parents(body):
+                if c.get("k") == "call" and callee(c) and callee(c)["name"] in ("push_back", "insert", "emplace_back") and "o" in c:
+                    r = strip(c.get("o"))
+                    if isinstance(r, dict) and r.get("k") == "ref" and r.get("rk") == "local":
+                        sinks.append(c)
+            if not sinks:
+                ctx.skipped("C05.r10|%s|no result list" % f, rid="C05.r10")
+                continue
+
+            def verbatim_o(e):
+                """sub-expressions of e that read the right argument's list outside an extrapolating call"""
+                out = []
+
+                def rec(x, shielded):
+                    if not isinstance(x, dict):
+                        return
+                    if x.get("k") == "call" and callee(x) and callee(x)["name"] in ("apply", "operator||", "widening_thresholds", "approx"):
+                        shielded = True
+                    if x.get("k") == "mem" and x.get("n") == lst:
+                        b = deref(x.get("b"))
+                        if isinstance(b, dict) and b.get("k") == "ref" and b.get("id") == oid and not shielded:
+                            out.append(x)
+                    if x.get("k") == "ref" and x.get("rk") == "local" and not shielded:
+                        dd = d.get(x.get("id")) or {}
+                        if "i" in dd:
+                            rec(dd["i"], shielded)
+                    for key, v in x.items():
+                        if key in ("f",):
+                            continue
+                        if isinstance(v, dict):
+                            rec(v, shielded)
+                        elif isinstance(v, list):
+                            for y in v:
+                                rec(y, shielded)
+                for a in e.get("a", []):
+                    rec(a, False)
+                return out
+            for c in sinks:
+                n += 1
+                v = verbatim_o(c)
+                if v:
+                    ctx.bad("dis_interval::widening copies intervals of the right argument into the result as they are (`%s`): only the "
+                            "extreme intervals are extrapolated, so {0} | [5,5+k] | {10^6}, k = 1,2,... is an ascending chain that never "
+                            "becomes stationary" % src(c)[:70], fn, c, sig="widening-copies-right-argument")
+                else:
+                    ctx.ok("widening: result element drawn from the left argument or from an interval widening", fn, c)
+    if n == 0:
+        ctx.fail("rule C05.r10: dis_interval::widening not found")
+
+
+RULES += [r10_dis_interval_widening]
